@@ -16,6 +16,7 @@ import (
 	"context"
 	"fmt"
 	"math"
+	"os"
 	"sort"
 	"strings"
 	"testing"
@@ -359,6 +360,12 @@ func (blEngine) Generate(p *sim.Plan, g *sim.Rng) {
 		blGenGateRun(p, g, &cfg, nNodes, thorough)
 		return
 	}
+	// ---- and one in eight is aimed at the EXPIRY of the abnormal state: rounds follow each other at fractions of AnomalyCondition.Timeout,
+	// one node stays above a (prod) high threshold although pods are evicted from it, now and then it is measured between the thresholds
+	if g.Bool(0.14) {
+		blGenExpiryRun(p, g, &cfg, nNodes, thorough)
+		return
+	}
 	// ---- ops
 	nodeName := func() string { return fmt.Sprintf("n%d", g.Intn(nNodes)) }
 	podKey := func() string {
@@ -509,6 +516,121 @@ func blGenGateRun(p *sim.Plan, g *sim.Rng, cfg *blCfg, nNodes int, thorough bool
 	p.SetOps(ops)
 }
 
+// blGenExpiryRun: like blGenGateRun, but the clock moves by amounts comparable to AnomalyCondition.Timeout between rounds and the source
+// node n0 is NOT relieved by the evictions (its excess is larger than what the evictor lets go per round, or than all its evictable pods);
+// new small pods keep arriving on n0 so that every round has something to evict.
+func blGenExpiryRun(p *sim.Plan, g *sim.Rng, cfg *blCfg, nNodes int, thorough bool) {
+	var pc *blPoolCfg
+	for k := range cfg.Pools {
+		if len(cfg.Pools[k].Low) > 0 {
+			pc = &cfg.Pools[k]
+			break
+		}
+	}
+	prod := g.Bool(0.4)
+	pc.Dev = false
+	pc.Low, pc.High = blThr{blCPU: 30}, blThr{blCPU: blPickF(g, 50, 60, 62.5)}
+	pc.PLow, pc.PHigh = nil, nil
+	if prod || g.Bool(0.2) {
+		pc.PLow, pc.PHigh = blThr{blCPU: 10}, blThr{blCPU: blPickF(g, 25, 30)}
+	}
+	timeout := g.PickInt(30, 60, 60, 120, 300)
+	pc.Anom = &blAnom{N: uint32(g.PickInt(2, 2, 2, 3)), Norm: uint32(g.PickInt(1, 2, 3)), TimeoutS: timeout}
+	cfg.NodeFit, cfg.DryRun, cfg.NumNodes = g.Bool(0.1), false, 0
+	cfg.ExpS, cfg.CacheS = 300, g.PickInt(300, 600, 600)
+	cfg.Incl, cfg.Excl, cfg.SelApps, cfg.EvPrio = nil, nil, nil, 0
+	cfg.LimitBy, cfg.LimitK = "", 0
+	if g.Bool(0.6) {
+		cfg.LimitBy, cfg.LimitK = "node", g.PickInt(1, 1, 2)
+	}
+	var pods []blPodCfg
+	for _, q := range cfg.Pods {
+		if q.Node != "n0" && q.Node != "n1" {
+			pods = append(pods, q)
+		}
+	}
+	for i := 0; i < 2; i++ {
+		n := &cfg.Nodes[i]
+		n.Pool, n.Unsched, n.Taint = "a", false, false
+		if pc.Sel != "" {
+			n.Pool = pc.Sel
+		}
+		n.SysCPU, n.SysMem = n.CPU/10/blCPUUnit*blCPUUnit, n.Mem/10/blMemUnit*blMemUnit
+	}
+	n0 := &cfg.Nodes[0]
+	small := n0.CPU * 2 / 100 / blCPUUnit * blCPUUnit // 2% of the node (>= 1 unit for every generated capacity)
+	if small < blCPUUnit {
+		small = blCPUUnit
+	}
+	class := "batch"
+	if prod {
+		class = "prod"
+		// a big prod pod the evictor never lets go carries the prod excess; node usage stays between the node thresholds
+		pods = append(pods, blPodCfg{Name: "gbig", NS: "default", Node: "n0", Class: "prod", ByLabel: true, DS: true, App: "db",
+			CPU: n0.CPU * 30 / 100 / blCPUUnit * blCPUUnit, Mem: blMemUnit, ReqCPU: blCPUUnit, Tol: true})
+		n0.SysCPU = n0.CPU * 5 / 100 / blCPUUnit * blCPUUnit
+	}
+	nsmall := 0
+	smallPod := func() blPodCfg {
+		nsmall++
+		return blPodCfg{Name: fmt.Sprintf("e%d", nsmall), NS: "default", Node: "n0", Class: class, ByLabel: g.Bool(0.5),
+			App: g.Pick("web", "db", "job"), CPU: small, Mem: blMemUnit, ReqCPU: blCPUUnit, Tol: true}
+	}
+	for i := g.Range(2, 4); i > 0; i-- {
+		pods = append(pods, smallPod())
+	}
+	cfg.Pods = pods
+	which, pin := "high", ""
+	if prod {
+		which, pin = "phigh", "default/gbig"
+	}
+	// excess over the threshold while "above": 6..12% of the node, a multiple of the unit (never on a threshold boundary)
+	excess := func() int64 { return n0.CPU * g.PickI64(6, 8, 10, 12) / 100 / blCPUUnit * blCPUUnit }
+	frac := blPickF(g, 0.2, 0.3, 0.4, 0.5, 0.6, 0.7)
+	ops := []blOp{{K: "reportall"}}
+	rounds := g.Range(7, 11)
+	if thorough {
+		rounds = g.Range(7, 16)
+	}
+	for rd := 0; rd < rounds; rd++ {
+		if rd < 3 || !g.Bool(0.18) {
+			ops = append(ops, blOp{K: "aim", N: "n0", Which: which, Res: blCPU, P: pin, Off: excess()})
+		} else {
+			ops = append(ops, blOp{K: "aim", N: "n0", Which: which, Res: blCPU, P: pin, Off: -g.PickI64(1, 2, 4) * blCPUUnit}) // between the thresholds
+		}
+		if g.Bool(0.08) {
+			ops = append(ops, blOp{K: "aim", N: fmt.Sprintf("n%d", g.Intn(nNodes)), Which: g.Pick("high", "low", "phigh"), Res: blCPU, Off: g.PickI64(-1, 1, blCPUUnit)})
+		}
+		f := frac
+		switch g.Intn(8) {
+		case 0:
+			f = frac / 2
+		case 1:
+			f = blPickF(g, 0.2, 0.5, 0.9, 1.1)
+		}
+		d := int64(f * float64(timeout))
+		if g.Bool(0.7) {
+			d += g.PickI64(-1, 1, 1, 2, 3) // keep most instants off the exact expiry
+		}
+		if d < 1 {
+			d = 1
+		}
+		ops = append(ops, blOp{K: "tick", D: d}, blOp{K: "reportall"}, blOp{K: "balance"})
+		if g.Bool(0.2) {
+			ops = append(ops, blOp{K: "placeall"})
+		}
+		if g.Bool(0.75) {
+			pd := smallPod()
+			ops = append(ops, blOp{K: "addpod", Pod: &pd})
+		}
+		if g.Bool(0.03) {
+			ops = append(ops, blOp{K: "restart"})
+		}
+	}
+	p.SetCfg(*cfg)
+	p.SetOps(ops)
+}
+
 // ---------------------------------------------------------------- execution state
 
 type blNode struct {
@@ -589,6 +711,14 @@ type blSim struct {
 	// the high threshold and the stop condition was evaluated again (which resets the detector: continueEvictionCond -> resetNodesAsNormal)
 	stale, recovered [2]map[string]bool
 	recoveredNow     [2]map[string]bool // ... in the round being judged
+	maybeRecovered   [2]map[string]bool // an eviction of the round being judged left the node's estimate possibly under the threshold
+
+	// gate: the oracle's reading of the anomaly condition (N consecutive rounds reach a verdict that is valid for Timeout), per variant and node
+	gate        [2]map[string]*blGate
+	readingDead [2]bool // reading i (verdict after N+i consecutive rounds) is contradicted by an eviction of this run
+	// det: what a gate that is NOT cleared by a round without measurement-above can still hold (history class of the recorded finding)
+	det        [2]map[string]*blDet
+	carriedNow [2]map[string]bool
 
 	// the evictor's state (per round) and what it answered
 	evCount   map[string]int  // successful evictions per limiting key
@@ -1026,7 +1156,16 @@ func (s *blSim) aim(op *blOp) bool {
 		if len(cands) == 0 {
 			return false
 		}
-		p := s.pods[cands[s.r.Choose(len(cands))]]
+		var p *blPod
+		if op.P != "" {
+			// pinned: the pod whose load changes is named by the op
+			if !blHas(cands, op.P) {
+				return false
+			}
+			p = s.pods[op.P]
+		} else {
+			p = s.pods[cands[s.r.Choose(len(cands))]]
+		}
 		others -= get(p)
 		v := target - others
 		if v < 0 {
@@ -1354,7 +1493,7 @@ func (s *blSim) balance() {
 	s.evicts = nil
 	s.evCount, s.classPass, s.chkCount = map[string]int{}, map[string]bool{}, map[string]int{}
 	for v := 0; v < 2; v++ {
-		s.recoveredNow[v] = map[string]bool{}
+		s.recoveredNow[v], s.maybeRecovered[v] = map[string]bool{}, map[string]bool{}
 	}
 	s.inBalance = true
 	st := s.pl.Balance(r.T.Context(), nodes)
@@ -1373,10 +1512,30 @@ func (s *blSim) balance() {
 	// what the round leaves behind in the detectors (history classes of the recorded findings)
 	for _, name := range s.nodeNames {
 		for v := 0; v < 2; v++ {
+			if g := s.gate[v][name]; g != nil && blDebug {
+				r.Event("DBG gate %s v=%d m=%+v exact=%v recNow=%v maybe=%v", name, v, g.m, g.exact, s.recoveredNow[v][name], s.maybeRecovered[v][name])
+			}
 			switch {
 			case s.recoveredNow[v][name]:
 				s.stale[v][name], s.afterInt[v][name], s.afterBelow[v][name], s.recovered[v][name] = false, false, false, true
 				r.Probe("detector-reset-by-own-eviction")
+				// relieved by the plugin's own eviction: the required rounds are counted again from zero, nothing is carried
+				if g := s.gate[v][name]; g != nil {
+					g.m = [2]blGateSt{}
+				}
+				if d := s.det[v][name]; d != nil {
+					d.sts, d.hadInt, d.unknown = map[blGateSt]bool{{}: true}, false, false
+				}
+			case s.maybeRecovered[v][name]:
+				if g := s.gate[v][name]; g != nil {
+					g.exact = false
+				}
+				if d := s.det[v][name]; d != nil {
+					d.addCleared(false)
+				}
+				if s.streak[v][name] > 0 {
+					s.stale[v][name] = true
+				}
 			case s.streak[v][name] > 0:
 				s.stale[v][name] = true
 			}
@@ -1436,6 +1595,266 @@ func (s *blSim) start() time.Time { return blEpoch }
 
 var blEpoch time.Time
 
+var blDebug = os.Getenv("VERIF_BALANCE_DEBUG") != ""
+
+// ---------------------------------------------------------------- the anomaly condition, as documented
+//
+// LoadAnomalyCondition (pkg/descheduler/apis/config): "ConsecutiveAbnormalities indicates the number of consecutive abnormalities",
+// "Timeout indicates the expiration time of the abnormal state"; LowNodeLoadArgs: "DetectorCacheTimeout indicates the cache expiration
+// time of nodeAnomalyDetectors". Read together with the statement of C18 ("has been so for the required consecutive rounds"):
+// a node enters the abnormal state in the round in which it has been measured above its high threshold for the required number of
+// consecutive rounds; the state is valid for Timeout from that moment; afterwards (and after any round in which the node is not above,
+// after a restart, after the node has not been looked at for DetectorCacheTimeout, after the plugin's own eviction relieved the node)
+// the required consecutive rounds are counted again from zero. Pods may be evicted only while the state is valid.
+// Two readings of "the required number" are accepted (N rounds, or more than N rounds as the anomaly package documents its default
+// condition "more than 5"), but ONE of them has to explain every eviction of the run (readingDead).
+
+type blGateSt struct {
+	cnt   int   // consecutive rounds above, counted since the last clear
+	open  bool  // abnormal state reached ...
+	until int64 // ... and valid until this instant (unix nanoseconds)
+}
+
+type blGate struct {
+	m         [2]blGateSt // reading 0: N rounds, reading 1: N+1 rounds
+	exact     bool        // false: something happened that the documentation leaves open (boundary instants, condition changed by a relabel, ...)
+	anom      blAnom
+	lastAbove time.Time
+}
+
+func blGateMark(st blGateSt, need int, timeout time.Duration, now time.Time) (out blGateSt, boundary bool) {
+	n := now.UnixNano()
+	if st.open {
+		switch {
+		case n > st.until:
+			st = blGateSt{}
+		case n == st.until:
+			return st, true
+		default:
+			return st, false
+		}
+	}
+	st.cnt++
+	if st.cnt >= need {
+		st = blGateSt{open: true, until: now.Add(timeout).UnixNano()}
+	}
+	return st, false
+}
+
+func blAnomTimeout(a *blAnom) time.Duration {
+	if a.TimeoutS <= 0 {
+		return 60 * time.Second // documented default
+	}
+	return time.Duration(a.TimeoutS) * time.Second
+}
+
+// stepGate: the node is above (variant v) in the round that starts now.
+func (s *blSim) stepGate(v int, name string, t *blTable, now time.Time) {
+	a := t.pool.Anom
+	if a == nil || a.N <= 1 {
+		delete(s.gate[v], name)
+		return
+	}
+	row := t.rows[name]
+	g := s.gate[v][name]
+	if g == nil {
+		g = &blGate{exact: true, anom: *a}
+		s.gate[v][name] = g
+	} else {
+		if g.anom != *a {
+			g.exact = false // relabelled into a pool with another condition while above: what carries over is not documented
+			g.anom = *a
+		}
+		ttl := time.Duration(s.cfg.CacheS) * time.Second
+		switch gap := now.Sub(g.lastAbove); {
+		case gap > ttl:
+			g.m = [2]blGateSt{} // not looked at for DetectorCacheTimeout: counted again from zero
+		case gap == ttl:
+			g.exact = false
+		}
+	}
+	if row == nil || !row.valid || row.hi[v] != blYes {
+		g.exact = false // on a threshold / expiry boundary: counted or not
+	}
+	if v == 1 && row != nil && row.valid && row.hi[0] != blNo {
+		g.exact = false // above both thresholds: the node counts as a node-usage source in this round, its prod count may pause
+	}
+	for i := range g.m {
+		st, boundary := blGateMark(g.m[i], int(a.N)+i, blAnomTimeout(a), now)
+		if boundary {
+			g.exact = false
+		}
+		g.m[i] = st
+	}
+	g.lastAbove = now
+}
+
+// gateAllows: some reading that is still consistent with the run has the node in a valid abnormal state.
+func (s *blSim) gateAllows(g *blGate) bool {
+	for i := range g.m {
+		if !s.readingDead[i] && g.m[i].open {
+			return true
+		}
+	}
+	return false
+}
+
+// ---------------------------------------------------------------- history class of the recorded finding "interrupted-high-streak"
+//
+// The recorded defect: a round in which the node is NOT above (between the thresholds, unmeasured, absent) neither clears the count
+// nor closes the abnormal state. blDet follows, over the history, everything such a never-cleared-by-interruption gate can still hold
+// for the node: the set of possible (count, state, expiry) after every round, with the clears that do happen (state expiry after
+// Timeout, entry not refreshed for DetectorCacheTimeout, restart, reset of a node in the abnormal state that is seen under the low
+// thresholds or relieved by the plugin's own eviction; where the history does not decide whether a clear happened, both are kept).
+// The class is: the entry has lived through such a round (hadInt) and can still hold an abnormal state (possiblyOpen) in a round in
+// which the oracle above does not allow an eviction. Only then is the run tagged; an eviction without the required rounds in any
+// other history (e.g. after the earlier state has EXPIRED) is not covered by the recorded finding.
+
+type blDet struct {
+	n        int
+	timeout  time.Duration
+	anom     blAnom
+	sts      map[blGateSt]bool
+	lastSet  time.Time // latest instant at which the entry may have been refreshed
+	lastSure time.Time // latest instant at which it certainly was
+	hadInt   bool
+	unknown  bool
+}
+
+func blNewDet(a *blAnom) *blDet {
+	return &blDet{n: int(a.N), timeout: blAnomTimeout(a), anom: *a, sts: map[blGateSt]bool{{}: true}}
+}
+
+func (d *blDet) marked(now time.Time) map[blGateSt]bool {
+	out := map[blGateSt]bool{}
+	n := now.UnixNano()
+	for st := range d.sts {
+		if st.open {
+			if n < st.until {
+				out[st] = true
+				continue
+			}
+			if n == st.until {
+				out[st] = true // and the expired branch below
+			}
+			st = blGateSt{}
+		}
+		st.cnt++
+		if st.cnt > d.n {
+			st = blGateSt{open: true, until: now.Add(d.timeout).UnixNano()}
+		}
+		out[st] = true
+	}
+	return out
+}
+
+func (d *blDet) possiblyOpen(now time.Time) bool {
+	if d.unknown {
+		return true
+	}
+	for st := range d.sts {
+		if st.open && st.until >= now.UnixNano() {
+			return true
+		}
+	}
+	return false
+}
+
+func (d *blDet) addCleared(onlyIfOpen bool) {
+	add := !onlyIfOpen
+	for st := range d.sts {
+		if st.open {
+			add = true
+		}
+	}
+	if add {
+		d.sts[blGateSt{}] = true
+	}
+}
+
+// stepDet: one balance round starts now; t is the table of the pool that judges the node (nil: none).
+func (s *blSim) stepDet(v int, name string, t *blTable, now time.Time) {
+	ttl := time.Duration(s.cfg.CacheS) * time.Second
+	d := s.det[v][name]
+	if d != nil && now.Sub(d.lastSet) > ttl {
+		d = nil
+		delete(s.det[v], name)
+	}
+	marked, lowish := blNo, false
+	var a *blAnom
+	if t != nil && s.nodes[name].present {
+		a = t.pool.Anom
+		switch row := t.rows[name]; {
+		case row == nil:
+		case row.why == "expiry-boundary":
+			marked, lowish = blMaybe, true
+		case !row.valid:
+		default:
+			marked = row.hi[0]
+			if v == 1 {
+				// the prod gate is consulted only for nodes that are not node-usage sources
+				switch {
+				case row.hi[1] == blNo || row.hi[0] == blYes:
+					marked = blNo
+				case row.hi[1] == blYes && row.hi[0] == blNo:
+					marked = blYes
+				default:
+					marked = blMaybe
+				}
+			}
+			lowish = row.lo[v] != blNo
+		}
+	}
+	if a == nil || a.N <= 1 {
+		marked = blNo // no gate configured for this pool: entries are not consulted
+	}
+	if marked == blNo {
+		if d != nil {
+			d.hadInt = true
+			if lowish {
+				d.addCleared(true)
+			}
+		}
+		return
+	}
+	if d == nil {
+		d = blNewDet(a)
+		s.det[v][name] = d
+		if marked == blMaybe {
+			d.sts = map[blGateSt]bool{{}: true}
+			for st := range d.marked(now) {
+				d.sts[st] = true
+			}
+			d.lastSet = now
+			return
+		}
+	} else {
+		if now.Sub(d.lastSure) > ttl {
+			// the entry may have expired since its last certain refresh: possibly a fresh one
+			if d.anom != *a {
+				d.unknown = true
+			}
+			d.sts[blGateSt{}] = true
+		}
+		if marked == blMaybe {
+			d.hadInt = true
+			for st := range d.marked(now) {
+				d.sts[st] = true
+			}
+			if lowish {
+				d.addCleared(true)
+			}
+			d.lastSet = now
+			return
+		}
+	}
+	d.sts = d.marked(now)
+	d.lastSet, d.lastSure = now, now
+	if len(d.sts) > 64 {
+		d.unknown = true
+	}
+}
+
 func (s *blSim) updateStreaks(judge map[string]*blTable, now time.Time) {
 	ttl := time.Duration(s.cfg.CacheS) * time.Second
 	for _, name := range s.nodeNames {
@@ -1449,8 +1868,11 @@ func (s *blSim) updateStreaks(judge map[string]*blTable, now time.Time) {
 					above = true // the statement does not say whether age == expiration is expired: do not break the streak
 				}
 			}
+			s.stepDet(v, name, t, now)
+			s.carriedNow[v][name] = false
 			if !above {
 				s.streak[v][name] = 0
+				delete(s.gate[v], name) // not above in this round: the required consecutive rounds start again from zero
 				if t != nil && t.rows[name] != nil && t.rows[name].valid {
 					s.gapBelow[v][name] = true // measured and not above (as opposed to: not measured / not in the list)
 				}
@@ -1475,17 +1897,22 @@ func (s *blSim) updateStreaks(judge map[string]*blTable, now time.Time) {
 				s.stale[v][name], s.recovered[v][name] = false, false
 			}
 			s.gapBelow[v][name] = false
+			s.streak[v][name]++
+			s.lastHi[v][name] = now
+			s.lastPool[v][name] = t.pool
+			s.stepGate(v, name, t, now)
 			if a := t.pool.Anom; a != nil && a.N > 1 {
-				if s.afterInt[v][name] {
+				// history class of the recorded finding: the node's gate has lived through a round that did not touch it and can
+				// still hold an abnormal state now, while the node has not been above for the required rounds / its own state expired
+				// (a condition on the history alone; it only matters when the oracle does not allow an eviction in this round)
+				if d := s.det[v][name]; d != nil && d.hadInt && d.possiblyOpen(now) {
+					s.carriedNow[v][name] = true
 					s.r.Tag("interrupted-high-streak")
 				}
 				if s.otherPool[v][name] {
 					s.r.Tag("detector-from-other-pool")
 				}
 			}
-			s.streak[v][name]++
-			s.lastHi[v][name] = now
-			s.lastPool[v][name] = t.pool
 		}
 	}
 }
@@ -1536,6 +1963,7 @@ func (s *blSim) checkEvict(e *blEvict, judge map[string]*blTable, seen map[strin
 		if row.why == "expiry-boundary" {
 			r.Probe("skip:expiry-boundary")
 			t.broken = true
+			s.untracked(e.node)
 			return
 		}
 		r.Fail("node-not-measured", row.why, "Evict(%s) from node %s whose NodeMetric is unusable in this round (%s)\n%s", e.key, e.node, row.why, t.describe())
@@ -1567,6 +1995,7 @@ func (s *blSim) checkEvict(e *blEvict, judge map[string]*blTable, seen map[strin
 		// some verdict of this pool lies on a threshold boundary (or a skipped eviction broke the running estimate): do not guess
 		r.Probe("skip:inexact-round")
 		t.broken = true
+		s.untracked(e.node)
 		return
 	}
 	// which measurement justifies it: node usage, else prod usage
@@ -1585,21 +2014,49 @@ func (s *blSim) checkEvict(e *blEvict, judge map[string]*blTable, seen map[strin
 	vn := []string{"node", "prod"}[v]
 	// ... for the required consecutive rounds
 	if a := t.pool.Anom; a != nil && a.N > 1 {
+		now := time.Now()
+		d := s.det[v][e.node]
 		if got := s.streak[v][e.node]; got < int(a.N) {
 			detail := "fresh-streak"
-			if s.otherPool[v][e.node] {
+			switch {
+			case s.otherPool[v][e.node] && d != nil && d.anom != *a && d.possiblyOpen(now):
 				detail = "detector-of-other-pool"
-			} else if s.afterBelow[v][e.node] {
+			case s.carriedNow[v][e.node] && s.afterBelow[v][e.node]:
 				detail = "after-round-below-threshold"
-			} else if s.afterInt[v][e.node] {
+			case s.carriedNow[v][e.node]:
 				detail = "after-unmeasured-round"
-			} else if s.recovered[v][e.node] {
+			case s.recovered[v][e.node]:
 				// the previous streak ended because the plugin's own eviction brought the node back under the threshold and the
 				// detector was reset: the count must start again (not part of the recorded finding)
 				detail = "recovered-by-own-eviction"
+			case d != nil && d.hadInt:
+				// an earlier streak was interrupted, but whatever abnormal state it reached has expired since (not part of the recorded finding)
+				detail = "earlier-abnormal-state-expired"
 			}
 			r.Fail("not-consecutive", detail, "Evict(%s) from node %s: %s usage has been above the high threshold for %d consecutive round(s) only, ConsecutiveAbnormalities=%d (round %d)",
 				e.key, e.node, vn, got, a.N, s.round)
+		}
+		// ... and the abnormal state reached by them has not expired (Timeout after it was reached)
+		if g := s.gate[v][e.node]; g != nil && g.exact {
+			r.Probe("anomaly-expiry-checked")
+			if !s.gateAllows(g) {
+				detail := "abnormal-state-expired"
+				if s.carriedNow[v][e.node] {
+					detail = "after-interruption-state-of-earlier-streak" // consequence of the recorded finding: the state of an interrupted streak is still held
+				}
+				r.Fail("not-consecutive", detail, "Evict(%s) from node %s: %s usage has been above the high threshold for %d consecutive rounds, but the abnormal state they reached (ConsecutiveAbnormalities=%d, Timeout=%ds) has expired and the node has not been above for the required rounds since: counted since expiry %d/%d round(s) [verdict after N rounds] resp. %d/%d [after more than N] (round %d, t=%ds)",
+					e.key, e.node, vn, s.streak[v][e.node], a.N, a.TimeoutS, g.m[0].cnt, a.N, g.m[1].cnt, a.N+1, s.round, int(now.Sub(s.start()).Seconds()))
+			}
+			if d == nil || !d.hadInt {
+				for i := range g.m {
+					if !g.m[i].open && !s.readingDead[i] {
+						s.readingDead[i] = true
+						r.Probe(fmt.Sprintf("reading-%d-contradicted", i))
+					}
+				}
+			}
+		} else {
+			r.Probe("skip:anomaly-expiry-inexact")
 		}
 		r.Probe("anomaly-gate-passed")
 	}
@@ -1665,6 +2122,7 @@ func (s *blSim) checkEvict(e *blEvict, judge map[string]*blTable, seen map[strin
 	if !above {
 		r.Probe("skip:estimate-on-boundary")
 		t.broken = true
+		s.untracked(e.node)
 		return
 	}
 	// the head-room of the under-used nodes is not used up
@@ -1693,6 +2151,7 @@ func (s *blSim) checkEvict(e *blEvict, judge map[string]*blTable, seen map[strin
 		}
 		if !stillAbove {
 			r.Probe("node-brought-under-threshold")
+			s.maybeRecovered[v][e.node] = true // if the stop condition is evaluated once more, it clears the node's gate
 		}
 		// Did this eviction bring the node definitely under the threshold AND was the stop condition evaluated once more
 		// (it is evaluated before every further removable pod of the node; it resets the node's detector)? Only claimed when certain.
@@ -1733,6 +2192,12 @@ func (s *blSim) checkEvict(e *blEvict, judge map[string]*blTable, seen map[strin
 	}
 }
 
+// untracked: an eviction from the node was not followed by the oracle's running estimate (verdict skipped on a boundary): whether the
+// node was relieved in this round - and its gate cleared by the stop condition - is not known.
+func (s *blSim) untracked(node string) {
+	s.maybeRecovered[0][node], s.maybeRecovered[1][node] = true, true
+}
+
 func blHas(xs []string, x string) bool {
 	for _, y := range xs {
 		if y == x {
@@ -1755,6 +2220,8 @@ func (blEngine) Execute(r *sim.Run) {
 		s.lastPool[v], s.otherPool[v] = map[string]*blPoolCfg{}, map[string]bool{}
 		s.gapBelow[v], s.afterBelow[v] = map[string]bool{}, map[string]bool{}
 		s.stale[v], s.recovered[v], s.recoveredNow[v] = map[string]bool{}, map[string]bool{}, map[string]bool{}
+		s.maybeRecovered[v], s.carriedNow[v] = map[string]bool{}, map[string]bool{}
+		s.gate[v], s.det[v] = map[string]*blGate{}, map[string]*blDet{}
 	}
 	s.idx = cache.NewIndexer(cache.MetaNamespaceKeyFunc, cache.Indexers{})
 	for _, nc := range s.cfg.Nodes {
@@ -1903,6 +2370,8 @@ func (blEngine) Execute(r *sim.Run) {
 			s.newPlugin()
 			for v := 0; v < 2; v++ {
 				s.lastHi[v] = map[string]time.Time{}
+				// nothing survives a restart: the required consecutive rounds are counted again from zero
+				s.gate[v], s.det[v] = map[string]*blGate{}, map[string]*blDet{}
 			}
 			r.Probe("plugin-restart")
 		default:
